@@ -65,8 +65,9 @@ def stepIid (fam : String) (x p1 p2 p3 : List Rat) : String :=
   if fam = "mhn" && n > 1 then "not-vector" else
   if !(iidSupport fam x p1 p2 p3) then "nan" else
   if fam = "uniform" then
-    -- logpdf: log(1/prod(high-low)) over the entries of `high-low` itself (C04's concern); gradient zeros
-    let k := max p1.length p2.length
+    -- logpdf: log(1/volume) (C04's concern); gradient zeros
+    -- scalar bounds: `(high-low)**dim` (since /repo commit 53dfade); array bounds: `prod(high-low)`
+    let k := if p1.length = 1 && p2.length = 1 then n else max p1.length p2.length
     let v := (List.range k).foldl (fun acc j => acc * (bcast p2 j - bcast p1 j)) (1 : Rat)
     let zeros := fmtQs (List.replicate n 0)
     s!"value {floatStr (Float.log (1.0 / ratToFloat v))} {zeros} {zeros}"
